@@ -544,3 +544,53 @@ def dynamic_writes(top, fp, rng, trials=3):
           d >>= 1; k += 1
   restore_state(st)
   return extra
+
+
+def dynamic_reads(top, fp, rng, trials=4):
+  """for every combinational block and every top-level signal it does NOT declare as read (nor writes): randomise that
+  signal's storage and see whether anything the block writes changes. Returns {block: set of root ids} of undeclared
+  reads (independent of pymtl3's AST analysis). Signals sharing storage (one net) count as one."""
+  st = save_state(top)
+  live = {}
+  alias = {}
+  for q in fp.roots:
+    obj, i, is_list, _ = top._sim.signal_object_mapping[q]
+    v = obj[i] if is_list else getattr(obj, i)
+    live[q] = v
+    alias.setdefault(id(v), set()).add(fp.roots[q])
+  alias_of = {rid: cl for cl in alias.values() for rid in cl}
+  leaves_of = {}
+  for q, v in live.items():
+    l = []; _leafs(v, l); leaves_of[q] = l
+  all_leaves = live_leaves(top)
+  extra = {}
+  for b in fp.comb:
+    if b in top._dag.genblks: continue
+    declared = set()
+    for (rr, lo, hi) in fp.reads[b] + fp.writes[b]: declared |= alias_of[rr]
+    wroots = {rr for (rr, lo, hi) in fp.writes[b]}
+    for q, rid in fp.roots.items():
+      if rid in declared: continue
+      found = False
+      for t in range(trials):
+        for x in all_leaves: x._uint = rng.getrandbits(x.nbits)
+        base = [(x, x._uint) for x in all_leaves]
+        try: b()
+        except Exception: break
+        out1 = snapshot(top)
+        for x, u in base: x._uint = u
+        for x in leaves_of[q]: x._uint = rng.getrandbits(x.nbits)
+        mid = snapshot(top)
+        try: b()
+        except Exception: break
+        out2 = snapshot(top)
+        # compare only what the block writes (declared), ignoring the perturbed signal itself
+        for (rr, lo, hi) in fp.writes[b]:
+          name = [repr(z) for z, r_ in fp.roots.items() if r_ == rr][0]
+          m = (1 << hi) - (1 << lo)
+          if (out1[name] & m) != (out2[name] & m) and rr not in alias_of[rid]:
+            found = True
+        if found: break
+      if found: extra.setdefault(b, set()).add(rid)
+  restore_state(st)
+  return extra
